@@ -2,12 +2,11 @@
 
 brute(...)            the definition: minimum over *all* partial matchings
 bottleneck_ref(...)   threshold search + two one-sided bipartite matchings (Mendelsohn-Dulmage)
-wasserstein_ref(...)  linear programme solved with HiGHS
+wasserstein_ref(...)  reduced-gain assignment solved with an own Kuhn-Munkres implementation
 """
 import math
 
 import numpy as np
-from scipy.optimize import linprog
 from scipy.sparse import csr_matrix
 from scipy.sparse.csgraph import maximum_bipartite_matching
 
@@ -124,38 +123,71 @@ def bottleneck_ref(A, B):
     return float(cands[lo])
 
 
+def hungarian_min(cost):
+    """Minimum-sum perfect assignment of a square matrix (Kuhn-Munkres with potentials, O(n^3)); own implementation,
+    exact up to floating-point rounding (unlike an LP solver, which stops at a 1e-7 optimality tolerance)."""
+    n = cost.shape[0]
+    INF = float("inf")
+    u = np.zeros(n + 1)
+    v = np.zeros(n + 1)
+    p = np.zeros(n + 1, dtype=int)      # p[j] = row assigned to column j (1-based, 0 = none)
+    way = np.zeros(n + 1, dtype=int)
+    for i in range(1, n + 1):
+        p[0] = i
+        j0 = 0
+        minv = np.full(n + 1, INF)
+        used = np.zeros(n + 1, dtype=bool)
+        while True:
+            used[j0] = True
+            i0 = p[j0]
+            cur = cost[i0 - 1, :] - u[i0] - v[1:]
+            free = ~used[1:]
+            better = free & (cur < minv[1:])
+            minv[1:][better] = cur[better]
+            way[1:][better] = j0
+            cand = np.where(free, minv[1:], INF)
+            j1 = int(np.argmin(cand)) + 1
+            delta = cand[j1 - 1]
+            u[p[used]] += delta
+            v[used] -= delta
+            minv[1:][free] -= delta
+            j0 = j1
+            if p[j0] == 0:
+                break
+        while True:
+            j1 = way[j0]
+            p[j0] = p[j1]
+            j0 = j1
+            if j0 == 0:
+                break
+    rows = p[1:] - 1
+    return float(sum(cost[rows[j], j] for j in range(n))), rows
+
+
 def wasserstein_ref(A, B):
-    """min sum c_ij x_ij + sum_i da_i (1 - sum_j x_ij) + sum_j db_j (1 - sum_i x_ij),
-    x >= 0, row and column sums <= 1 (integral polytope)."""
+    """Sum of all diagonal costs plus the best total *gain* of pairing points across:
+    W = sum da + sum db + min over partial matchings of sum (c_ij - da_i - db_j);
+    solved as a k x k assignment (k = max(m, n)) with entries min(0, c_ij - da_i - db_j) and zero dummies -
+    a different matrix and a different solver from the (M+N)^2 augmented Hungarian matrix in persim."""
     A = np.asarray(A, dtype=float).reshape(-1, 2)
     B = np.asarray(B, dtype=float).reshape(-1, 2)
     m, n = len(A), len(B)
     da = (A[:, 1] - A[:, 0]) / SQRT2
     db = (B[:, 1] - B[:, 0]) / SQRT2
-    base = float(da.sum() + db.sum())
     if m == 0 or n == 0:
-        return base
+        return float(da.sum() + db.sum())
     C = np.sqrt((A[:, None, 0] - B[None, :, 0]) ** 2 + (A[:, None, 1] - B[None, :, 1]) ** 2)
-    gain = (C - da[:, None] - db[None, :]).ravel()
-    scale = max(1e-300, float(np.max(np.abs(gain))), base)
-    rows = []
-    cols = []
-    for i in range(m):
-        for j in range(n):
-            rows.append(i)
-            cols.append(i * n + j)
-            rows.append(m + j)
-            cols.append(i * n + j)
-    Aub = csr_matrix((np.ones(len(rows)), (rows, cols)), shape=(m + n, m * n))
-    res = linprog(gain / scale, A_ub=Aub, b_ub=np.ones(m + n), bounds=(0, None), method="highs")
-    if res.status != 0:
-        raise RuntimeError("LP reference failed: %s" % res.message)
-    # evaluate the objective at the rounded (integral) vertex for full precision
-    x = np.round(res.x).reshape(m, n)
-    lp_val = base + float(res.x @ gain)
-    if np.any(x.sum(axis=0) > 1) or np.any(x.sum(axis=1) > 1):
-        return lp_val
-    val = float((x * C).sum() + ((1 - x.sum(axis=1)) * da).sum() + ((1 - x.sum(axis=0)) * db).sum())
-    if abs(val - lp_val) > 1e-7 * scale:
-        return lp_val
-    return val
+    k = max(m, n)
+    G = np.zeros((k, k))
+    G[:m, :n] = np.minimum(0.0, C - da[:, None] - db[None, :])
+    _, rows = hungarian_min(G)
+    paired_a = np.zeros(m, dtype=bool)
+    paired_b = np.zeros(n, dtype=bool)
+    total = 0.0
+    for j in range(k):
+        i = rows[j]
+        if i < m and j < n and G[i, j] < 0:
+            total += C[i, j]
+            paired_a[i] = True
+            paired_b[j] = True
+    return float(total + da[~paired_a].sum() + db[~paired_b].sum())
